@@ -280,6 +280,21 @@ void build_free_corpus(bool big)
         add_free("v" + std::to_string(ver) + "-len" + std::to_string(ln) + "/nowit", CScript(), spk, {});
         if (big || ln == 32) add_free("p2sh-v" + std::to_string(ver) + "-len" + std::to_string(ln), CScript() << sv(spk), p2sh_of(spk), {ONE});
     }
+    // witness programs whose bytes cast to FALSE (all zero / negative zero) or TRUE (control), native and P2SH-wrapped:
+    // the P2SH redeemScript leaves the program on top of the stack, so the legacy truthiness rule must hold with and without WITNESS
+    for (int ver : {0, 1, 2, 16}) for (int ln : {2, 20, 32, 40}) {
+        for (int content = 0; content < 3; content++) {
+            valtype prog(ln, content == 2 ? 0x01 : 0x00);
+            if (content == 1) prog.back() = 0x80;
+            CScript wp = CScript() << (ver == 0 ? OP_0 : (opcodetype)(OP_1 + ver - 1)) << prog;
+            const std::string nm = "falsy-program/v" + std::to_string(ver) + "-len" + std::to_string(ln) + "-" + (content == 0 ? "zero" : content == 1 ? "negzero" : "true");
+            const int core = (ver == 1 || ver == 16) && (ln == 2 || ln == 32);     // quick: every flag combination for these
+            add_free(nm + "/p2sh", CScript() << sv(wp), p2sh_of(wp), {}, big || core);
+            add_free(nm + "/native", CScript(), wp, {}, big || core);
+            add_free(nm + "/p2sh-witness", CScript() << sv(wp), p2sh_of(wp), {ONE}, big);
+            add_free(nm + "/native-witness", CScript(), wp, {ONE}, big);
+        }
+    }
     add_free("p2a", CScript(), CScript() << OP_1 << valtype{0x4e, 0x73}, {});
     add_free("p2a/witness", CScript(), CScript() << OP_1 << valtype{0x4e, 0x73}, {ONE});
     add_free("p2sh-p2a", CScript() << sv(CScript() << OP_1 << valtype{0x4e, 0x73}), p2sh_of(CScript() << OP_1 << valtype{0x4e, 0x73}), {});
